@@ -225,7 +225,9 @@ func (g *G) Where(t *tspace.Table, db *ref.DB) []ref.Cond {
 
 // Mut generates a well-typed mutation for a column (ok=false if none exists).
 func (g *G) Mut(c *tspace.Col, db *ref.DB, extra map[string][]string) (ref.Mut, bool) {
-	if c.Immutable || len(c.Key.Enum) > 0 {
+	// (now and then an immutable column is mutated: the operation must be refused whatever
+	// the column's kind)
+	if len(c.Key.Enum) > 0 || (c.Immutable && !g.P.Chance(1, 5)) {
 		return ref.Mut{}, false
 	}
 	switch {
